@@ -381,7 +381,15 @@ pub fn gen_history(pid: &str, rng: &mut Rng, uni: &Universe, stats: &mut Stats) 
                 h.push(AOp::SyncProcess { ns, m, now: T0 + 10 });
             }
             // C12: the policy changes while replicas are open and entries keep arriving
-            81..=84 if c12 && rng.chance(2, 3) => h.push(AOp::SetPolicy { ns, p: gen_policy(rng) }),
+            81..=84 if c12 && rng.chance(2, 3) => {
+                h.push(AOp::SetPolicy { ns, p: gen_policy(rng) });
+                // ... and an entry arrives right afterwards
+                if rng.chance(2, 3) {
+                    let w = world_for(doc);
+                    let wire = crate::c03::sign(&w.ns, &w.authors[au], &gen_key(rng), hash, len, now);
+                    h.push(AOp::InsertRemote { ns, w: wire, st: rng.below(3) as u8, now: T0 + 10 });
+                }
+            }
             81..=84 => h.push(AOp::GetExact { ns, au, key, ie: rng.chance(1, 2) }),
             85..=88 => h.push(AOp::GetAll { ns }),
             89..=90 => { stats.inc("drop"); h.push(AOp::Drop { ns }) }
